@@ -4,10 +4,41 @@ open Kv Drv
 
 namespace Drv.C02
 
+/-- sequential `remoteKeySet.VerifySignature` on a long-lived key set: the cached keys (what the endpoint served
+    last, `pre.`) decide when they hold the named / only candidate key and its signature check settles the matter;
+    otherwise the set is downloaded again (`cur.`) and decides.  Returns the deciding keys and whether a download happens. -/
+def remoteDecisive (cached served : List JWK) (j : JWS) : List JWK × Bool :=
+  let (kid, alg) := Hand.GetKeyIDAndAlg j
+  if cached.isEmpty then (served, true) else
+  match Hand.FindMatchingKey kid "sig" alg cached with
+  | .error _ => (served, true)
+  | .ok k =>
+    match Hand.jwsVerify j k with
+    | .ok _ => (cached, false)
+    | .error _ => if (if k.KeyID == "" && kid == "" then false else k.KeyID == kid) then (cached, false) else (served, true)
+
+def rpVerifier (l : Line) (t : Token) : Verifier :=
+  let v := parseVerifier l
+  if has l "stateful" then
+    match t.jws with
+    | some j => { v with KeySet := { kind := .published, keys := (remoteDecisive (parseKeySet l "pre.").keys (parseKeySet l "cur.").keys j).1 } }
+    | none => { v with KeySet := parseKeySet l "cur." }
+  else v
+
+/-- downloads the model predicts for a call on a long-lived key set (none: not such a line) -/
+def modelFetches (l : Line) (t : Token) : Option Nat :=
+  if !has l "stateful" then none else
+  match Hand.ParseToken 0 t, Hand.joseParseSigned t (Hand.toJoseSignatureAlgorithms (list l "v.algs")) with
+  | .ok _, .ok j =>
+    match j.Signatures with
+    | [_] => some (if (remoteDecisive (parseKeySet l "pre.").keys (parseKeySet l "cur.").keys j).2 then 1 else 0)
+    | _ => some 0
+  | _, _ => some 0
+
 def runModel (l : Line) (now : Int) : Go.R Claims :=
-  let t := parseToken l
+  let t := parseTokenX l
   match str l "verifier" with
-  | "rp" => Gen.VerifyIDToken now t (parseVerifier l)
+  | "rp" => Gen.VerifyIDToken now t (rpVerifier l t)
   | "at" => Gen.OPVerifyAccessToken now t (parseVerifier l)
   | "hint" =>
     match Gen.VerifyIDTokenHint now t (parseVerifier l) with
@@ -33,10 +64,19 @@ def step (l : Line) : String :=
   let stable := showR m0 == showR m1
   let modelS := if stable then showR m0 else "unstable"
   let obsS := obsString l
+  let t := parseTokenX l
+  -- the oracle's three header views must fit together as the model merges them
+  let merged := match t.jws with
+    | some j => j.Signatures.all Hand.headerMerged
+    | none => true
+  -- a long-lived remote key set: the downloads the endpoint saw are the ones the model predicts
+  let fetchesOK := match modelFetches l t with
+    | some n => n == nat l "o.fetches"
+    | none => true
   -- accept / reject must coincide; error names are compared when the model names a sentinel
-  let agree := !stable || (match m0 with
+  let agree := merged && fetchesOK && (!stable || (match m0 with
     | .ok _ => obsS == "ok"
-    | .error e => obsS != "ok" && obsS != "panic" && (!e.startsWith "Err" || obsS == "err:" ++ e))
+    | .error e => obsS != "ok" && obsS != "panic" && (!e.startsWith "Err" || obsS == "err:" ++ e)))
   s!"case={str l "case"} model={modelS} observed={obsS} monitor={showMon (monitorLine l)} agree={if agree then 1 else 0}"
 
 end Drv.C02
